@@ -31,7 +31,46 @@ def items(tier, seed):
         for handed in (True, False):
             out.append(dict(name=f"loop-alias-{name}-{'handed' if handed else 'created'}", kind="loop-alias", routine=name, handed=handed, seed=seed,
                             scripts=["ccTccc", "cccUcc"] if q else ["ccTccc", "cccUcc", "cccccc", "TcTcUc"]))
+    # delayed actor updates: on a critic-only step of the loop the actor and its optimizer stay bit-identical
+    for name in ("td3", "td3_lap", "sac"):
+        for d in ((2, 3) if q else (2, 3, 4)):
+            out.append(dict(name=f"loop-delay-{name}-d{d}", kind="loop-delay", routine=name, delay=d, seed=seed))
     return out
+
+
+def delay_item(item, col):
+    name, d = item["routine"], item["delay"]
+    entry = "train_" + name
+    for script, ls in itertools.product(["cccccccc", "ccTccUcc"], (0, 3)):
+        cfg = dict(buffer_size=16, env_horizon=len(script) + 3, learning_starts=ls, batch_size=2, seed=1 + item["seed"], net_seed=item["seed"], snap=True)
+        if name == "sac":
+            cfg.update(policy_delay=d, delay=1)
+        else:
+            cfg.update(delay=d)
+        run = D.run(name, script, **cfg)
+        col.tick(1)
+        if run.error or run.result is None:
+            col.outcome("runs_aborted_by_env_guard:" + str(run.error))
+            continue
+        snaps = run.snaps
+        moved_somewhere = False
+        for (k0, t0, a), (k1, t1, b) in zip(snaps, snaps[1:]):
+            step = t0
+            critic_only = step >= ls and step % d != 0
+            for comp in ("policy", "policy_optimizer"):
+                changed = a[comp] != b[comp]
+                moved_somewhere = moved_somewhere or changed
+                col.tick(1, (entry, d, script, ls, step, comp) if critic_only else None)
+                if critic_only:
+                    col.outcome("loop_critic_only_steps_checked")
+                    if a["q"] != b["q"]:
+                        col.outcome("loop_critic_only_steps_where_the_critic_did_move")
+                    if changed:
+                        col.violation(SIG.format(entry, "changed-untrained:" + comp), dict(routine=name, script=script, learning_starts=ls, policy_delay=d, env_step=step,
+                                                                                          what="critic-only step of the delayed schedule"))
+        if moved_somewhere:
+            col.outcome("loop_delay_runs_where_the_actor_moved_on_its_own_steps")
+    col.sample(dict(kind="loop-delay", routine=name, delay=d))
 
 
 def ensemble_item(item, col):
@@ -196,4 +235,6 @@ def _run_created(name, script, cfg):
 def work(item, col):
     if item["kind"] == "loop-ensemble":
         return ensemble_item(item, col)
+    if item["kind"] == "loop-delay":
+        return delay_item(item, col)
     return alias_item(item, col)
